@@ -21,7 +21,8 @@ THOROUGH_SCALE = 2.5        # random budgets of the thorough tier are multiplied
 REQUIRE = {'streams_drop': 50, 'streams_nondrop': 50, 'streams_with_offset': 50, 'gaps_closed': 20,
            'gaps_exactly_five_frames': 3, 'gaps_open': 20, 'last_caption_four_seconds': 50,
            'flash_cue_streams': 10, 'times_compared': 500, 'captions_split_same_times': 10,
-           'streams_beginning_before_the_offset': 20, 'reads_with_lang_option': 50}
+           'streams_beginning_before_the_offset': 20, 'reads_with_lang_option': 50,
+           'reads_by_a_reader_object_used_before': 100}
 CW = Fraction(1001000, 30)        # one code word at 29.97 fps, in microseconds
 
 
@@ -36,9 +37,13 @@ def gen(rng):
     if offset and rng.random() < 0.3:
         # the stream begins before the offset: the first instants are floored at zero
         start_frame = rng.choice([0, 1, 15, 29, 30, 45, offset * 30 - 20, offset * 30 - 1])
-    return {'prog': prog, 'offset': offset, 'start_frame': start_frame,
+    case = {'prog': prog, 'offset': offset, 'start_frame': start_frame,
             'min_gap': rng.choice([0, 0, 1, 2, 3, 4, 5, 6, 8, 30, 200]),
             'lang': rng.choice([None, None, None, 'fr', 'en-US', 'x-y'])}
+    if rng.random() < 0.2:
+        # the reader object has read another document before, with the other kind of timecode in half of them
+        case['prior_doc'] = G.prior_doc(rng, drop=rng.choice([None, not prog['drop']]))
+    return case
 
 
 def _probe(drop, extra_gap, offset, start_frame):
@@ -148,7 +153,7 @@ def check(case, ctx):
         kw = {'lang': case['lang']} if case.get('lang') else {}
         if kw:
             ctx.count('reads_with_lang_option')
-        cs = SCCReader().read(doc, offset=case['offset'], **kw)
+        cs = G.reader_for(case, ctx).read(doc, offset=case['offset'], **kw)
     except CaptionReadTimingError as e:
         if flash_maybe:
             ctx.count('flash_cue_streams')
